@@ -89,10 +89,10 @@ def cases(draw, rot=0):
     if needs_far:
         # a label more than 4 KiB away: branch pseudo-instructions cannot reach it
         text = text.replace('{far}', 'FARAWAY_77')
-    # blank / whitespace-only lines anywhere, in particular at the very top of files (they count for the line numbers)
+    # blank / whitespace-only / comment-only lines (a comment may end in a backslash: no continuation lines in this language) anywhere, in particular at the very top of files (they count for the line numbers)
     nblank = draw(st.integers(0, 4))
     for _ in range(nblank):
-        lines.insert(draw(st.integers(0, min(len(lines), 3))) if draw(st.booleans()) else draw(st.integers(0, len(lines))), draw(st.sampled_from(['', '   ', '\t'])))
+        lines.insert(draw(st.integers(0, min(len(lines), 3))) if draw(st.booleans()) else draw(st.integers(0, len(lines))), draw(st.sampled_from(['', '   ', '\t', '# note', '# C:\\chips\\gd32\\', '  #\\'])))
     pos = draw(st.integers(0, len(lines)))
     if cls == 'twin':
         # the same text twice: valid right after its target, out of range 5000 bytes later - the LATER line is the faulty one
